@@ -580,3 +580,52 @@ func (c *Ctx) GuardedReturnVal(fn *ssa.Function, desc string, i int, valRe strin
 		}
 	}
 }
+
+// AfterGuard: on every path that leaves through the passing edge of the guard, `must` is executed before any
+// `before` instruction is reached (a protective step that has to precede a destructive one).
+func (c *Ctx) AfterGuard(fn *ssa.Function, g Guard, mustDesc string, must SinkSel, beforeDesc string, before SinkSel) {
+	key := fnName(fn) + "/" + mustDesc + " after " + g.Desc + " and before " + beforeDesc
+	sites := c.P.guardEdges(fn, g)
+	if len(sites) == 0 {
+		c.Bad("O", key, fn.Pos(), 0, "guard `"+g.Desc+"` not found in "+fnName(fn))
+		return
+	}
+	if len(findInstrs(fn, must)) == 0 {
+		c.Bad("O", key, fn.Pos(), 0, mustDesc+": no such step in "+fnName(fn))
+		return
+	}
+	if len(findInstrs(fn, before)) == 0 {
+		c.Unres("O", key, beforeDesc+": no such step in "+fnName(fn))
+		return
+	}
+	for _, s := range sites {
+		w := &Walker{P: c.P, Stop: must}
+		hit, found := w.Reach(fn, s.Pass.to, 0, before)
+		if found {
+			c.Bad("O", key, instrPos(hit.Instr), len(sites), fmt.Sprintf("%s is reached from %s without %s (path %s)", describeInstr(hit.Instr), s.Desc, mustDesc, c.P.pathStr(hit.Path)))
+			return
+		}
+	}
+	c.OK("O", key, fn.Pos(), len(sites), "")
+}
+
+// domConds lists the branch conditions that dominate an instruction, as "cond=T" / "cond=F".
+func domConds(in ssa.Instruction) []string {
+	var out []string
+	b0 := in.Block()
+	for d := b0.Idom(); d != nil; d = d.Idom() {
+		if len(d.Instrs) == 0 {
+			continue
+		}
+		iff, ok := d.Instrs[len(d.Instrs)-1].(*ssa.If)
+		if !ok || len(d.Succs) != 2 || d.Succs[0] == d.Succs[1] {
+			continue
+		}
+		for i, s := range d.Succs {
+			if len(s.Preds) == 1 && s.Dominates(b0) {
+				out = append(out, pathOf(iff.Cond)+"="+map[int]string{0: "T", 1: "F"}[i])
+			}
+		}
+	}
+	return out
+}
